@@ -254,6 +254,16 @@ def run(ctx):
         al = [c for c in cases if not c["malformed"] and c["e"][0] != "lit"][: (250 if quick else 3000)]
         if ctx.replay is not None:
             al = [ctx.replay["case"]]
+        else:
+            # directed: sums / differences / products with a neutral operand (zero polynomial, Id) must be fresh objects too
+            for k in range(6 if quick else 40):
+                pl = exprs.lit(rng, rng.choice(["generic", "dyadic", "int"]), k % 2, 6)
+                if not pl[2]:
+                    pl = ["lit", k % 2, [1.0, -0.5]]
+                z = ["lit", rng.choice([0, k % 2]), []]
+                one = ["lit", 0, [1.0]]
+                for e in (["add", pl, z], ["add", z, pl], ["sub", pl, z], ["mul", pl, one], ["mul", one, pl], ["scale", 1.0, pl], ["trunc", pl, pl[1], pl[1] + 2 * (len(pl[2]) - 1)]):
+                    al.append({"e": e, "malformed": False, "directed": "neutral operand"})
         res = run_impl([{"fn": "palias", "e": exprs.p_json(c["e"])} for c in al])
         for c, r in zip(al, res):
             ctx.count(["alias", c["e"]], nontrivial=True, bucket="alias/" + c["e"][0])
